@@ -164,6 +164,14 @@ func (s *Sim) constraintAbort(what string, err error) {
 	panic(abortRun{what})
 }
 
+// EndRun lets an engine built on chansim end the run at the current state
+// (e.g. after it consumed a live channel object with ForceClose).
+func (s *Sim) EndRun(why string) {
+	s.R.Logf("END (engine): %s", why)
+	s.aborted = true
+	panic(abortRun{why})
+}
+
 // ---------------------------------------------------------------------------
 // Local operations
 
